@@ -1819,7 +1819,11 @@ where
 fn __get_response_size(conn: &mut network::KafkaConnection) -> Result<i32> {
     let mut buf = [0u8; 4];
     conn.read_exact(&mut buf)?;
-    i32::decode_new(&mut Cursor::new(&buf))
+    let size = i32::decode_new(&mut Cursor::new(&buf))?;
+    if size < 0 {
+        return Err(Error::CodecError);
+    }
+    Ok(size)
 }
 
 /// Suspends the calling thread for the configured "retry" time. This
